@@ -3,6 +3,14 @@
 From Coq Require Import List NArith.
 From Quill Require Import BT.BTModel BT.BTProofs Queue.BQDefs Backend.BEDefs Backend.BEDispatch Backend.BEFault Backend.BEBt.
 Import ListNotations.
+From Quill Require TieBE ExpectedBE.
+
+(* T-src: the BackendWorker methods this property's part of M-BE re-states are, statement by statement, the ones the model
+   was written against and compared with (ExpectedBE.v; the whole loop is tied in Properties_C03.C03_tie_backend_loop) *)
+Theorem C18_tie_backend_methods :
+  QuillGen.SrcFacts.sk_be_process_transit_event = Quill.ExpectedBE.sk_be_process_transit_event.
+Proof. exact TieBE.src_be_process_transit_event. Qed.
+Print Assumptions C18_tie_backend_methods.
 
 (* the configuration the model is run with in the correspondence check (the fixed tree) *)
 Definition bt_cfg_fixed := {| reset_index_in_process := true; cap0_guard := true |}.
